@@ -121,6 +121,11 @@ structure Fns (K : Type) where
   pdiv : Vec K → Vec K → Vec K
   /-- body of `proj_simplex`: `maximum(x - x_avrg[i], 0)` with the critical index of x -/
   simplex : K → Vec K → Vec K
+  /-- `ProximalSimplex` on an array-weighted space: `maximum(x - tau[i] / w, 0)` with the
+  threshold found after sorting `w * x` (arguments: diameter, x, weights) -/
+  wsimplex : K → Vec K → Vec K → Vec K
+  /-- base index of a flat index of a power-space element (`k % n`; identity otherwise) -/
+  bidx : Nat → Nat
 
 /-- Scalars closed over by the factories. -/
 structure Par (K : Type) where
@@ -129,6 +134,8 @@ structure Par (K : Type) where
   gamma : K
   radius : K      -- also `diameter`, `sum_value`
   eps : K
+  /-- `_const_weight(space)`: constant weight of the inner product (cell volume), else 1 -/
+  cw : K
   a : K           -- scalars of ScalingOperator / LinCombOperator
   b : K
 
@@ -146,9 +153,9 @@ inductive ProxId
   | ccLinfty
   | ccKL (g : Bool)
   | ccKLCE (g : Bool)
-  | huber
-  | simplex
-  | sumc
+  | huber (ps : Bool)        -- ps: the domain is a product (power) space
+  | simplex (aw : Bool)      -- aw: array-weighted space (weights = buffer `sig`)
+  | sumc (aw : Bool)
   -- default_ops applied in place by solvers / calculus wrappers
   | scaling | lincombOp | multiply | constant | zero | power
   deriving DecidableEq, Repr
@@ -282,10 +289,11 @@ def prog (F : Fns K) (P : Par K) : ProxId → Stmt K
   -- ProximalLInfty._call
   | .linfty =>
       .ifIs x out (.new x [x] (fun a => a 0)) .skip ;;
-      projL1 F P.sigma ;;
+      -- radius = self.sigma / _const_weight(self.domain)
+      projL1 F (P.sigma / P.cw) ;;
       .set out [out, x] (fun a i => (-1) * a 0 i + 1 * a 1 i)
   -- ProximalConvexConjLinfty._call
-  | .ccLinfty => projL1 F 1
+  | .ccLinfty => projL1 F (1 / P.cw)
   -- ProximalConvexConjKL._call
   | .ccKL hasG =>
       .ifIs x out (.new x [x] (fun a => a 0)) (.set out [x] (fun a => a 0)) ;;
@@ -305,23 +313,37 @@ def prog (F : Fns K) (P : Par K) : ProxId → Stmt K
        else
         .new lambw [x] (fun a i => F.lambertw ((P.sigma / P.lam) * F.exp (a 0 i / P.lam)))) ;;
       .set out [x, lambw] (fun a i => 1 * a 0 i + (-P.lam) * a 1 i)
-  -- ProximalHuber._call (tensor spaces)
-  | .huber =>
-      .new nrm [x] (fun a i => F.abs (a 0 i)) ;;
+  -- ProximalHuber._call
+  | .huber ps =>
+      -- norm = PointwiseNorm(domain, 2)(x) | x.ufuncs.absolute()
+      (if ps then .new nrm [x] (fun a => F.pwnorm (a 0))
+       else .new nrm [x] (fun a i => F.abs (a 0 i))) ;;
+      -- small = norm_arr <= gamma + sigma;  large = np.logical_not(small)
       .new mask [nrm] (fun a i => F.ofBool (F.le (a 0 i) (P.gamma + P.sigma))) ;;
-      .set out [out, x, mask]
-        (fun a i => if F.truthy (a 2 i) then P.gamma / (P.gamma + P.sigma) * a 1 i else a 0 i) ;;
-      .set mask [mask] (fun a i => F.ofBool (!F.truthy (a 0 i))) ;;
-      .new signx [x] (fun a i => F.sign (a 0 i)) ;;
-      .set out [out, x, mask, signx]
-        (fun a i => if F.truthy (a 2 i) then a 1 i - P.sigma * a 3 i else a 0 i)
+      .new t2 [mask] (fun a i => F.ofBool (!F.truthy (a 0 i))) ;;
+      -- per component (merged): x_arr = x_i.asarray() is a VIEW of x; res = np.empty_like(x_arr)
+      .newJunk tmp ;;
+      .set tmp [tmp, x, mask]
+        (fun a i => if F.truthy (a 2 (F.bidx i)) then P.gamma / (P.gamma + P.sigma) * a 1 i
+                    else a 0 i) ;;
+      .set tmp [tmp, x, t2, nrm]
+        (fun a i => if F.truthy (a 2 (F.bidx i))
+                    then a 1 i - P.sigma * (a 1 i / a 3 (F.bidx i)) else a 0 i) ;;
+      -- out_i[:] = res
+      .set out [tmp] (fun a => a 0)
   -- IndicatorSimplex.proximal : ProximalSimplex._call
-  | .simplex => simplexStmt F P.radius x
+  | .simplex false => simplexStmt F P.radius x
+  | .simplex true => .set out [x, sig] (fun a => F.wsimplex P.radius (a 0) (a 1))
   -- IndicatorSumConstraint.proximal : ProximalSum._call
-  | .sumc =>
+  | .sumc false =>
       .new offset [x] (fun a => cst (F.invSize * (P.radius - F.sum (a 0)))) ;;
       .set out [x] (fun a => a 0) ;;
       .set out [out, offset] (fun a i => a 0 i + a 1 0)
+  | .sumc true =>
+      -- tau = (sum_value - x.ufuncs.sum()) / np.sum(1 / weights)
+      .new offset [x, sig] (fun a => cst ((P.radius - F.sum (a 0)) / F.sum (fun i => 1 / a 1 i))) ;;
+      -- out[:] = x.asarray() + tau / weights
+      .set out [x, offset, sig] (fun a i => a 0 i + a 1 0 / a 2 i)
   -- ScalingOperator / IdentityOperator._call(x, out)
   | .scaling => .set out [x] (fun a i => P.a * a 0 i)
   -- LinCombOperator._call(x, out), x = (x[0], x[1]); x[1] is the buffer named `g`
